@@ -27,21 +27,21 @@ type Violation struct {
 
 // Report is what one child process hands to the driver.
 type Report struct {
-	mu          sync.Mutex
-	Property    string           `json:"property"`
-	Evaluations int64            `json:"evaluations"`
-	Distinct    []string         `json:"distinct"`
-	Rule        string           `json:"rule"`
-	Samples     []interface{}    `json:"samples"`
-	Stats       map[string]int64 `json:"stats"`
-	Notes       map[string]string `json:"notes,omitempty"`
-	Violations  []Violation      `json:"violations"`
-	Inconclusive string          `json:"inconclusive,omitempty"`
-	Assumptions []string         `json:"assumptions,omitempty"`
-	distinct    map[string]struct{}
-	vioCount    map[string]int
-	journal     *os.File
-	maxSamples  int
+	mu           sync.Mutex
+	Property     string            `json:"property"`
+	Evaluations  int64             `json:"evaluations"`
+	Distinct     []string          `json:"distinct"`
+	Rule         string            `json:"rule"`
+	Samples      []interface{}     `json:"samples"`
+	Stats        map[string]int64  `json:"stats"`
+	Notes        map[string]string `json:"notes,omitempty"`
+	Violations   []Violation       `json:"violations"`
+	Inconclusive string            `json:"inconclusive,omitempty"`
+	Assumptions  []string          `json:"assumptions,omitempty"`
+	distinct     map[string]struct{}
+	vioCount     map[string]int
+	journal      *os.File
+	maxSamples   int
 }
 
 // NewReport creates the report for this child.
@@ -232,3 +232,18 @@ func (r *Rng) Bool() bool { return r.Uint64()&1 == 1 }
 
 // Chance returns true with probability num/den.
 func (r *Rng) Chance(num, den int) bool { return r.Intn(den) < num }
+
+// Parallel runs f(0..n-1) on up to 16 goroutines.
+func Parallel(n int, f func(i int)) {
+	var wg sync.WaitGroup
+	sem := make(chan struct{}, 16)
+	for i := 0; i < n; i++ {
+		wg.Add(1)
+		sem <- struct{}{}
+		go func(i int) {
+			defer func() { <-sem; wg.Done() }()
+			f(i)
+		}(i)
+	}
+	wg.Wait()
+}
